@@ -269,9 +269,9 @@ class SchedReal:
 # All values are dyadic so that the float arithmetic of _update_next is exact and comparable
 # with the integer specification; 2**-19 s is about 1.9 microseconds, at epoch scale.
 PERIODIC_SCALES = [
-    (1.0, 1700000000.0, "ms"),
     (2.0 ** -19, 1700000000.0, "ms"),
-    (1.0, 50000.0, "timedelta"),
+    (0.25, 50000.0, "timedelta"),
+    (1.0, 1700000000.0, "ms"),
     (0.25, 1234567.5, "ms"),
     (2.0 ** -10, 0.0, "ms"),
 ]
